@@ -51,6 +51,10 @@ func (m *Metadata) ReadFrom(r io.Reader) (int64, error) {
 	if err != nil {
 		return 0, err
 	}
+	if len(lenb) != 4 {
+		return 0, io.ErrUnexpectedEOF
+	}
+
 	len := int(binary.BigEndian.Uint32(lenb))
 
 	for i := 0; i < len; i++ {
@@ -107,7 +111,7 @@ func (m *Metadata) PutInt(key string, n int) {
 
 func (m *Metadata) GetInt(key string) (int, bool) {
 	v, ok := m.Get(key)
-	if !ok {
+	if !ok || len(v) != 8 {
 		return 0, false
 	}
 	return int(binary.BigEndian.Uint64(v)), true
@@ -124,7 +128,7 @@ func (m *Metadata) PutBool(key string, v bool) {
 
 func (m *Metadata) GetBool(key string) (bool, bool) {
 	v, ok := m.Get(key)
-	if !ok {
+	if !ok || len(v) < 1 {
 		return false, false
 	}
 	return v[0] != 0, true
